@@ -188,7 +188,9 @@ inline std::string g_segment(Tape &t, int flavor = SEG_ANY) {
       g_huge_left()--;
       static const char *pres[] = {".", "..", "ab:", ":"};  // a colon early in a segment longer than 2^16
       pre = pres[t.below(4)];
-      total = 65536 + (int)pre.size();
+      // lengths whose low 16 bits are 0 .. |prefix|: a scan or comparison that keeps only 16 bits of the length sees a prefix
+      // of the prefix (a dot segment where there is none, no colon where there is one)
+      total = 65536 + t.range(pre[0] == '.' ? 1 : 0, (int)pre.size());
     }
     return pre + std::string((size_t)total - pre.size(), 'a');
   }
